@@ -673,13 +673,16 @@ func (rd *HandlingDataManager) reloadFlows() error {
 		return err
 	}
 
-	err := rd.initializeStreams()
-	if err != nil {
-		return fmt.Errorf("💔 Failed to load flows: %v", err)
-	}
-	err = rd.metricManager.ReloadMetricsConfig()
+	// The metrics configuration can still reject the update. It is loaded
+	// before initializeStreams, whose last step publishes the new engine: a
+	// rejected update must not have served any transaction.
+	err := rd.metricManager.ReloadMetricsConfig()
 	if err != nil {
 		return fmt.Errorf("failed to load metrics config: %v", err)
+	}
+	err = rd.initializeStreams()
+	if err != nil {
+		return fmt.Errorf("💔 Failed to load flows: %v", err)
 	}
 
 	rd.metricManager.UpdateMetricsForFlow(rd.getStream())
